@@ -50,8 +50,17 @@ func genC27(gen *sim.Stream) *c27Stream {
 		b.WriteString(text)
 		line += strings.Count(text, "\n")
 	}
+	// a block comment spanning lines whose last line continues with code: the comment and
+	// the statement are one chunk
+	inlineComment := func() string {
+		if gen.Draw(5) == 4 {
+			return []string{"/* c1\n c2 */ ", "/* a\n\n b */", "/**/ "}[gen.Draw(3)]
+		}
+		return ""
+	}
 	stmt := func() {
 		n++
+		add(inlineComment())
 		t := c27Templates[gen.Draw(len(c27Templates))]
 		st.Items = append(st.Items, strings.SplitN(t, "%", 2)[0])
 		add(fmt.Sprintf(t, n, n*3))
@@ -75,7 +84,12 @@ func genC27(gen *sim.Stream) *c27Stream {
 		stmt()
 	}
 	filler()
-	indent := strings.Repeat(" ", gen.Draw(4))
+	indent := inlineComment()
+	if k := strings.LastIndexByte(indent, '\n'); k >= 0 {
+		add(indent[:k+1])
+		indent = indent[k+1:]
+	}
+	indent += strings.Repeat(" ", gen.Draw(4))
 	switch gen.Draw(3) {
 	case 0:
 		st.Kind = "undefined"
